@@ -902,3 +902,59 @@ Proof.
     + contradiction.
   - inversion H; subst. exact R.
 Qed.
+
+(* ------------------------------------------------------------------------------------------------ *)
+(* Reachable states (StreamFacts.reachable): invariants and progress                                  *)
+
+Theorem reachable_inv : forall orc chunk data st valid encs prev,
+  0 < chunk -> reachable orc chunk data st valid encs prev ->
+  wf_rstate st /\ LInv st /\ Inv valid encs prev /\ sdata st = data.
+Proof.
+  intros orc chunk data st valid encs prev Hc H. induction H as [|st valid encs prev r st' valid' encs' prev' H IH Hs].
+  - split; [apply wf_initial|]. split; [unfold LInv, pos; cbn; lia|]. split; [constructor|reflexivity].
+  - destruct IH as (W & L & I' & D).
+    pose proof (iter_step_spec orc chunk st valid encs prev Hc W L I') as S. rewrite Hs in S.
+    destruct S as (S1 & S2 & S3 & S4 & S5 & S6).
+    split; [exact S3|]. split; [exact S5|]. split; [exact S1|congruence].
+Qed.
+
+(* every yielded section consumes at least one byte: this is why the fuel S (length data) of read_all suffices *)
+Theorem iter_step_progress : forall orc chunk data st valid encs prev r st' valid' encs' prev',
+  0 < chunk -> reachable orc chunk data st valid encs prev ->
+  iter_step orc chunk st valid encs prev = SYield r st' valid' encs' prev' ->
+  List.length (remaining (st_stream st')) < List.length (remaining (st_stream st)).
+Proof.
+  intros orc chunk data st valid encs prev r st' valid' encs' prev' Hc HR Hs.
+  destruct (reachable_inv _ _ _ _ _ _ _ Hc HR) as (W & L & I' & D).
+  pose proof (iter_step_spec orc chunk st valid encs prev Hc W L I') as S. rewrite Hs in S.
+  destruct S as (S1 & S2 & S3 & S4 & S5 & S6).
+  rewrite !remaining_length. unfold wf_rstate, wf_stream, pos, sdata in *. rewrite S2 in *. lia.
+Qed.
+
+(* the line counter never exceeds the number of bytes consumed, at every reachable state *)
+Theorem reachable_linenum : forall orc chunk data st valid encs prev,
+  0 < chunk -> reachable orc chunk data st valid encs prev ->
+  (0 <= st_linenum st <= Z.of_nat (s_pos (st_stream st)))%Z /\ s_pos (st_stream st) <= List.length data.
+Proof.
+  intros orc chunk data st valid encs prev Hc HR.
+  destruct (reachable_inv _ _ _ _ _ _ _ Hc HR) as (W & L & _ & D).
+  unfold wf_rstate, wf_stream, LInv, pos, sdata in *. rewrite D in W. auto.
+Qed.
+
+(* ------------------------------------------------------------------------------------------------ *)
+(* The sharper bound "line number <= number of LF bytes in the input" is FALSE (of the model and of    *)
+(* the Python code): when a preamble has indent=N, _read_content tests "ends with the newline" on the *)
+(* content AFTER the indentation has been stripped, so an unterminated last line made of spaces only  *)
+(* (here the two spaces after "a\n") is accepted and counted as a line although it contains no LF.    *)
+(* Each such preamble puts the line counter one further ahead of the physical line number.           *)
+
+Definition count_lf (d : bytes) : nat := List.length (filter (fun b => byte_eqb b lf) d).
+
+Definition lf_witness : bytes :=
+  B "#diffx: version=1.0" ++ [lf] ++
+  B "#.preamble: indent=2, length=4" ++ [lf] ++ B "a" ++ [lf] ++ B "  " ++
+  B "#.meta: length=1, encoding=nope" ++ [lf] ++ B "X".
+
+Theorem C08_linenum_lf_refuted_proof :
+  exists data l c, snd (read_all [] default_chunk data) = TParse l c /\ ~ (l < Z.of_nat (count_lf data) + 1)%Z.
+Proof. exists lf_witness, 5%Z, None. split; [vm_compute; reflexivity|vm_compute; discriminate]. Qed.
